@@ -7,6 +7,8 @@ type nat =
 
 val fst : ('a1 * 'a2) -> 'a1
 
+val snd : ('a1 * 'a2) -> 'a2
+
 val length : 'a1 list -> nat
 
 val app : 'a1 list -> 'a1 list -> 'a1 list
@@ -39,6 +41,8 @@ val hd : 'a1 -> 'a1 list -> 'a1
 
 val tl : 'a1 list -> 'a1 list
 
+val nth : nat -> 'a1 list -> 'a1 -> 'a1
+
 val nth_error : 'a1 list -> nat -> 'a1 option
 
 val rev : 'a1 list -> 'a1 list
@@ -50,6 +54,8 @@ val map : ('a1 -> 'a2) -> 'a1 list -> 'a2 list
 val fold_left : ('a1 -> 'a2 -> 'a1) -> 'a2 list -> 'a1 -> 'a1
 
 val existsb : ('a1 -> bool) -> 'a1 list -> bool
+
+val filter : ('a1 -> bool) -> 'a1 list -> 'a1 list
 
 val firstn : nat -> 'a1 list -> 'a1 list
 
@@ -467,3 +473,73 @@ val lstep : lstate -> event -> lstate option
 val lrun : lstate -> event list -> lstate option
 
 val lrun_diag : lstate -> event list -> nat -> lstate * nat option
+
+type tid0 = nat
+
+type ptr = z
+
+val ep_adv : z -> z
+
+type thr = { t_reg : bool; t_lsq : z; t_ls : z; t_qs : z; t_prev : ptr list;
+             t_cur : ptr list }
+
+val thr0 : thr
+
+type qstate = { q_ep : z; q_T : z; q_P : z; q_oprev : ptr list list;
+                q_ocur : ptr list list; q_thr : thr list; q_gep : z;
+                q_wait : (ptr * tid0 list) list }
+
+val qinit : nat -> qstate
+
+val get_thr : qstate -> tid0 -> thr
+
+val set_nth_thr : nat -> thr -> thr list -> thr list
+
+val set_thr : qstate -> tid0 -> thr -> qstate
+
+type step_res = qstate * ptr list
+
+val remove_tid0 : tid0 -> tid0 list -> tid0 list
+
+val ghost_passed : (ptr * tid0 list) list -> tid0 -> (ptr * tid0 list) list
+
+val registered_others : thr list -> tid0 -> nat -> tid0 list
+
+val ghost_drop : (ptr * tid0 list) list -> ptr list -> (ptr * tid0 list) list
+
+val with_ghost : qstate -> (ptr * tid0 list) list -> qstate
+
+val exec_prev : thr -> bool -> z -> ptr list -> thr * ptr list
+
+val adv_seen : thr -> bool -> z -> ptr list -> (thr * ptr list) * bool
+
+val handle_orphans :
+  qstate -> bool -> (ptr list list * ptr list list) * ptr list
+
+val q_retire : qstate -> tid0 -> ptr -> step_res
+
+val q_quiescent : qstate -> tid0 -> step_res
+
+val push_nonempty : ptr list -> ptr list list -> ptr list list
+
+val q_unregister : qstate -> tid0 -> step_res
+
+val q_register : qstate -> tid0 -> step_res
+
+type qop =
+| QRegister of tid0
+| QUnregister of tid0
+| QQuiescent of tid0
+| QRetire of tid0 * ptr
+
+val op_tid : qop -> tid0
+
+val op_enabled : qstate -> qop -> bool
+
+val qstep : qstate -> qop -> step_res
+
+val wait_of : (ptr * tid0 list) list -> ptr -> tid0 list
+
+val pending : qstate -> ptr list
+
+val registered_count : qstate -> z
